@@ -38,7 +38,8 @@ def gen_scenario(rng, profile="mixed"):
     for sg in sigs:
         r = rng.random()
         if profile == "chain" or r < 0.45:
-            lines.append("setup foreign %d %s" % (sg, rng.choice(["h1:%d" % rng.randint(0, 7), "h3:%d" % rng.randint(0, 7), "h3:%d" % rng.randint(0, 7), "ign"])))
+            lines.append("setup foreign %d %s" % (sg, rng.choice(["h1:%d" % rng.randint(0, 7), "h3:%d" % rng.randint(0, 7), "h3:%d" % rng.randint(0, 7), "ign",
+                                                                  "ign+4"])))   # SIG_IGN installed with SA_SIGINFO set: still "ignore"
     for sg in sigs:
         if rng.random() < (0.25 if profile == "chain" else 0.55):
             for _ in range(rng.randint(1, 2)):
@@ -95,7 +96,7 @@ def window_sweep(rng):
     thread - from every step of the registration on: some of them land between the installation of
     the library's handler and the publication of the slot"""
     out = []
-    for kind in ("h1:3", "h3:5", "ign"):
+    for kind in ("h1:3", "h3:5", "ign", "ign+4"):
         for sg in (10, 15):
             for d in range(2, 40, 2):
                 for nested in (True, False):
